@@ -483,12 +483,13 @@ type genState struct {
 	depth     map[int]int
 	wrapDepth map[int]int
 	batches   []int
+	bkeys     map[int][]string // keys a batch was already called with (so that Set/Delete of one key alternate)
 	next      int
 	closed    bool
 }
 
 func genCase(rng *hx.Rng, n int) []string {
-	g := &genState{views: []int{0}, depth: map[int]int{0: 0}, wrapDepth: map[int]int{0: 0}, next: 1, realm: map[int]string{0: ""}}
+	g := &genState{views: []int{0}, depth: map[int]int{0: 0}, wrapDepth: map[int]int{0: 0}, next: 1, realm: map[int]string{0: ""}, bkeys: map[int][]string{}}
 	var ops []string
 	newHandle := func() int { g.next++; return g.next - 1 }
 	addView := func(parent int, line string, h int, isWrap bool) {
@@ -622,6 +623,21 @@ func genCase(rng *hx.Rng, n int) []string {
 				g.batches = append(g.batches, h)
 				g.realm[h] = g.realm[v]
 			}
+		case x < 877:
+			// cancel scenario: fill a batch, cancel it, maybe refill, commit, look at the result
+			if g.closed {
+				continue
+			}
+			h := newHandle()
+			g.realm[h] = g.realm[v]
+			k1, k2 := keyFor(g.realm[v]), keyFor(g.realm[v])
+			ops = append(ops, fmt.Sprintf("batch %d %d", h, v), fmt.Sprintf("bset %d %s %s", h, k1, genBytes(rng, 4, valAlphabet)),
+				fmt.Sprintf("bdel %d %s", h, k2), fmt.Sprintf("cancel %d", h))
+			if rng.Bool() {
+				ops = append(ops, fmt.Sprintf("bset %d %s %s", h, keyFor(g.realm[v]), genBytes(rng, 4, valAlphabet)))
+			}
+			ops = append(ops, fmt.Sprintf("commit %d", h), fmt.Sprintf("iter %d - fwd 0", v))
+			g.batches = append(g.batches, h)
 		case x < 990:
 			if len(g.batches) == 0 {
 				continue
@@ -629,6 +645,10 @@ func genCase(rng *hx.Rng, n int) []string {
 			bi := rng.Intn(len(g.batches))
 			b := g.batches[bi]
 			key = keyFor(g.realm[b])
+			if ks := g.bkeys[b]; len(ks) > 0 && rng.Chance(1, 2) {
+				key = hx.Pick(rng, ks)
+			}
+			g.bkeys[b] = append(g.bkeys[b], key)
 			switch y := rng.Intn(125); {
 			case y < 60:
 				ops = append(ops, fmt.Sprintf("bset %d %s %s", b, key, genBytes(rng, 4, valAlphabet)))
